@@ -1,2 +1,38 @@
-(* C08 — truncated input never fabricates data. (theorems added by Proofs/ReaderProps.v) *)
-From VF Require Import Model.Writer Gen.GeneratedOk.
+(* C08 — Truncated or failing input never fabricates data. *)
+From VF Require Import Model.Reader Proofs.ReaderProps Gen.GeneratedOk.
+Open Scope string_scope. Open Scope list_scope. Open Scope Z_scope.
+
+(* For every type without unions and to-end-of-stream arrays (`simple`), every configuration, every input and every cut point k:
+   whatever parsing the shortened input returns, parsing the complete input returns — the same value and the same end position.
+   So a cut can only produce an error or exactly the value of the complete input: nothing is fabricated. *)
+Theorem prefix_stable : forall c t s k r, simple t = true ->
+  read_top c t (firstn k s) 0 = Ok r -> read_top c t s 0 = Ok r.
+Proof. exact read_top_prefix_stable. Qed.
+(* the same at every position, context and fuel, for every extension of the stream *)
+Theorem extension_stable : forall c fuel t, simple t = true ->
+  forall s1 s2 pos ctx r, read_ty c fuel t s1 pos ctx = Ok r -> read_ty c fuel t (s1 ++ s2) pos ctx = Ok r.
+Proof. exact read_ty_ext. Qed.
+(* more loop fuel never changes a result (the fuel is a proof device, not a behaviour) *)
+Theorem fuel_irrelevant : forall c t, simple t = true ->
+  forall f f' s pos ctx r, (f <= f')%nat -> read_ty c f t s pos ctx = Ok r -> read_ty c f' t s pos ctx = Ok r.
+Proof. exact read_ty_mono. Qed.
+(* a scalar whose bytes are not all there is an EOF error: reading exactly n bytes either succeeds with n bytes or fails with EEof *)
+Theorem short_read_is_eof : forall s pos n, 0 <= n <= 9223372036854775807 -> zlen (srest s pos) < n -> sread_exact s pos n = Err EEof.
+Proof. exact short_read_eof. Qed.
+
+Print Assumptions prefix_stable.
+Print Assumptions extension_stable.
+Print Assumptions fuel_irrelevant.
+
+(* non-vacuity: a structure with a counted array, a null-terminated string, bit fields and a nested structure is `simple`; every cut of an accepted input fails *)
+Definition ex_cfg := mkCfg "<" (PInt 8 false true) 8 [] [].
+Definition u8 := TPrim (PInt 1 false true) 1.
+Definition ex_ty := TStruct "m" [Fld "n" false u8 None None; Fld "d" false (TArr (TPrim (PInt 2 false true) 2) (LExpr ["n"] false)) None None;
+                                 Fld "s" false (TArr (TPrim PChar 1) LNull) None None; Fld "a" false u8 (Some 3) None; Fld "b" false u8 (Some 5) None;
+                                 Fld "in" false (TStruct "i" [Fld "x" false (TPrim (PInt 3 true false) 4) None None] false) None None] false.
+Example ex_simple : simple ex_ty = true.
+Proof. reflexivity. Qed.
+Example ex_cuts : let s := [2; 1; 0; 2; 0; 104; 105; 0; 171; 1; 2; 3] in
+  (exists v, read_top ex_cfg ex_ty s 0 = Ok (v, 12)) /\
+  forallb (fun k => match read_top ex_cfg ex_ty (firstn k s) 0 with Err EEof => true | _ => false end) (seq 0 12) = true.
+Proof. vm_compute. split; [eexists; reflexivity|reflexivity]. Qed.
